@@ -4,7 +4,7 @@ CONSTANTS
   MaxCatches = 4
   Closers = {1, 2}
   AsIs_D8 = FALSE
-  AsIs_D9 = FALSE
+  AsIs_D9 = TRUE
 SPECIFICATION GenSpec
-INVARIANTS TypeOK Bound AllClosedAfterEnd NoStuckEnd
+INVARIANTS TypeOK NoStuckEnd
 CHECK_DEADLOCK FALSE
